@@ -1,4 +1,5 @@
 use std::collections::HashSet;
+use std::hash::Hash;
 use std::path::PathBuf;
 
 use crate::check::context::clss::generic::GenericClass;
@@ -14,17 +15,16 @@ impl Context {
         let python_dir = resource("primitive");
         let (py_types, py_fields, py_functions) = python_files(&python_dir)?;
 
-        let classes: HashSet<GenericClass> = self.classes.union(&py_types).cloned().collect();
-        let functions: HashSet<GenericFunction> =
-            self.functions.union(&py_functions).cloned().collect();
-        let fields: HashSet<GenericField> = self.fields.union(&py_fields).cloned().collect();
+        let classes = with_missing(&self.classes, &py_types);
+        let functions = with_missing(&self.functions, &py_functions);
+        let fields = with_missing(&self.fields, &py_fields);
 
         let python_dir = resource("std");
         let (py_types, py_fields, py_functions) = python_files(&python_dir)?;
 
-        let classes: HashSet<GenericClass> = classes.union(&py_types).cloned().collect();
-        let functions: HashSet<GenericFunction> = functions.union(&py_functions).cloned().collect();
-        let fields: HashSet<GenericField> = fields.union(&py_fields).cloned().collect();
+        let classes = with_missing(&classes, &py_types);
+        let functions = with_missing(&functions, &py_functions);
+        let fields = with_missing(&fields, &py_fields);
 
         Ok(Context {
             classes,
@@ -38,15 +38,23 @@ impl Context {
         let python_dir = resource("std");
         let (py_types, py_fields, py_functions) = python_files(&python_dir)?;
 
-        let types = self.classes.union(&py_types).cloned().collect();
-        let functions = self.functions.union(&py_functions).cloned().collect();
-        let fields = self.fields.union(&py_fields).cloned().collect();
+        let types = with_missing(&self.classes, &py_types);
+        let functions = with_missing(&self.functions, &py_functions);
+        let fields = with_missing(&self.fields, &py_fields);
         Ok(Context {
             classes: types,
             functions,
             fields,
         })
     }
+}
+
+/// The definitions together with those built-in ones which they do not define themselves.
+/// (Which of two equal elements a union of hash sets yields depends on the sizes of the sets.)
+fn with_missing<T: Clone + Eq + Hash>(defined: &HashSet<T>, built_in: &HashSet<T>) -> HashSet<T> {
+    let mut all = defined.clone();
+    all.extend(built_in.iter().filter(|item| !defined.contains(item)).cloned());
+    all
 }
 
 fn resource(resource: &str) -> PathBuf {
